@@ -589,6 +589,9 @@ func (gen *Generator) GenerateCond(args []Sexp) error {
 	// we generate the cond bottom up, so i counts down.
 	for i := len(args)/2 - 1; i >= 0; i-- {
 		subgen.Reset()
+		// the test runs inside the same scopes as the arms: a break or
+		// continue in it must pop them too.
+		subgen.scopes = gen.scopes
 		err := subgen.Generate(args[2*i])
 		if err != nil {
 			return err
